@@ -197,9 +197,9 @@ func FinishSpeculativeLength(b []byte, pos int) []byte {
 		if cap(b) >= pos+msiz+mlen {
 			b = b[:pos+msiz+mlen]
 		} else {
-			newSlice := make([]byte, pos+msiz+mlen)
-			copy(newSlice, b)
-			b = newSlice
+			// NOTICE: grow like append does (amortized): an exact-size copy here is repeated by every
+			// enclosing message that finishes its own length, i.e. quadratic allocation in the nesting depth
+			b = append(b, make([]byte, pos+msiz+mlen-len(b))...)
 		}
 		copy(b[pos+msiz:], b[pos+speculativeLength:])
 	}
